@@ -245,6 +245,16 @@ def run_records(ctx, focus, n_random, exhaustive_n=0, field=0):
             ctx.count("records_with_a_fast_logger_and_outages_between_grid_instants")
         res = C.run_case(ctx, rec, s, j)
         judge(ctx, focus, res, C.replay_input(rec, s, j), ["events", "random", "dense", "layout"][kind])
+    if focus == "C03":
+        # "all threshold pairs": a jump threshold of zero or below (level and slowly falling steps then count as rising;
+        # the tool accepts it and the definition of a run is the same)
+        for k in range(16 if n_random <= 400 else 120):
+            s, j = gen.pick_thresholds(rng)
+            rec = gen.random_record(rng, s, j) if k % 2 else gen.events_record(rng, s, j)
+            j_used = [0.0, -0.25 * j, -j, -0.001][k % 4]
+            ctx.count("records_classified_with_a_jump_threshold_of_zero_or_below")
+            res = C.run_case(ctx, rec, s, j_used)
+            judge(ctx, focus, res, C.replay_input(rec, s, j_used), "nonpositive-jump-threshold")
     # rises sitting exactly on a decimal threshold (rounding boundary of threshold x step)
     for k in range(120 if n_random <= 400 else 800):
         rec, s, j = gen.boundary_record(rng)
